@@ -404,3 +404,6 @@ PROPS["C01"]["mc"].append({"module": "MC_SoftmaxCE",
                                       "thorough": {"Lens": "{1, 2, 3, 4, 5, 6, 7}", "Seeds": "{1, 2, 3, 4, 5, 6}"}},
                            "workers": 4})
 PROPS["C01"]["level_note"] += "; the soft-max/cross-entropy clause uses the symbolic derivative of -sum t ln softmax(z) (term mode, 1e-5)"
+
+PROPS["C03"]["record"] = [{"group": "optslots", "trace_module": "Trace_Opt"}]
+PROPS["C03"]["technique"] += " + TLC validation of the slot addressing of real training runs (Trace_Opt / OptSlots.tla)"
